@@ -291,7 +291,9 @@ def run(ctx, args):
     notes = []
 
     # ------------------------------------------------------------------ trees
-    n_facts, n_o0, n_o2, n_arch = (3, 6, 2, 1) if quick else (8, 40, 10, 4)
+    n_facts, n_o0, n_o2, n_arch = (3, 5, 2, 1) if quick else (8, 40, 10, 4)
+    if os.environ.get("VERIF_C12_SMALL"):      # debugging aid (mutation experiments on a loaded machine): not a tier
+        n_facts, n_o0, n_o2, n_arch = 1, 2, 0, 0
     bf, be, bo = Batch(ctx, work, "c12f", "facts"), Batch(ctx, work, "c12e", "O0"), Batch(ctx, work, "c12o", "O2")
     for i in range(n_facts):      # compiled with -gen-llfiles: no sync/atomic (see the note below)
         bf.add(rng, npk=[8, 5, 3][i] if i < 3 else None, atomic=False)
@@ -353,8 +355,33 @@ def run(ctx, args):
                     add_fact("sync/atomic.init$hasPatch (original)", me, t_old, calls, oimps, ids, True, True)
             elif t_old is not None:
                 std_broken = "sync/atomic skips the original init but an init$hasPatch was emitted"
+    uncovered = []
+    if not quick:
+        # thorough tier: more patched std packages.  A program importing `runtime` does not link here (libuv), but llgo dumps the
+        # IR of internal/abi, internal/runtime/maps, internal/runtime/sys (chained) and runtime (llgo:skipall) before it gives up.
+        # Shape only: their import sets depend on llgo's build tags, so `imports`/`goList` are the calls found in the IR.
+        d2 = os.path.join(work, "stdfacts")
+        write_module(d2, {"main.go": 'package main\n\nimport "runtime"\n\nfunc main() { println(runtime.GOOS) }\n'}, modname="c12std")
+        _run([ctx.llgo, "build", "-tags", "nogc", "-O0", "-gen-llfiles", "-o", os.path.join(d2, "prog"), "."], d2, env)
+        for pk in ["internal/abi", "internal/runtime/maps", "internal/runtime/sys", "runtime"]:
+            ll = idx.find(pk)
+            if ll is None:
+                uncovered.append("no IR dumped for the patched std package %s" % pk)
+                continue
+            ir = open(ll, errors="replace").read()
+            chained = pk in alts and patch_keeps_old_init(pk)
+            for fn in ("init", "init$hasPatch") if chained else ("init",):
+                toks = irfacts.init_tokens(ir, pk, fn)
+                if toks is None:
+                    std_broken = "%s: function %s missing from the IR" % (pk, fn)
+                    continue
+                calls = [x[1] for x in toks if x[0] == "callInit"]
+                ids = {x: i for i, x in enumerate(sorted(set(calls)))}
+                add_fact("%s.%s (shape only, chained=%s)" % (pk, fn, chained), len(ids), toks, calls, calls, ids, fn != "init", chained)
+            if not chained and irfacts.init_tokens(ir, pk, "init$hasPatch") is not None:
+                std_broken = "%s skips the original init but an init$hasPatch was emitted" % pk
     n_std_facts = len(facts)
-    ctx.log("sync/atomic IR facts:", n_std_facts, std_broken or "")
+    ctx.log("patched std packages: %d IR facts" % n_std_facts, std_broken or "")
 
     # ------------------------------------------------------------------ build every tree (llgo + reference)
     for b, opt, genll in ((bf, "-O0", True), (be, "-O0", False), (bo, "-O2", False)):
@@ -440,7 +467,6 @@ def run(ctx, args):
     # ------------------------------------------------------------------ tie E: traces
     n_eval, n_lines, mismatches, spec_fail, indep_order = 0, 0, [], 0, 0
     stats = {"trees": len(results), "packages": 0, "with_sync_atomic": 0, "with_unreachable": 0, "diamonds": 0, "modes": {}}
-    uncovered = []
     samples = []
     spec_gen_mismatch = 0
     for rec in results:
